@@ -72,7 +72,7 @@ func (s Kinds) Exclude(exclusions Kinds) Kinds {
 
 func (s Kinds) Remove(kind Kind) Kinds {
 	for idx, nodeKind := range s {
-		if kind == nodeKind {
+		if kind == nodeKind || (kind != nil && nodeKind != nil && nodeKind.Is(kind)) {
 			// The remaining kinds are copied: shifting them down in place would change every other slice that shares
 			// this one's backing array, including the argument list of a caller that removes a node's own kinds
 			remaining := make(Kinds, 0, len(s)-1)
